@@ -33,6 +33,7 @@ void orc_cb_start(int cb, const char *what);	/* at callback entry: exactly-once 
 void orc_cb_end(int cb);			/* last statement of the callback */
 int orc_barrier_enter(int who);			/* BEFORE rcu_barrier() is entered */
 void orc_barrier_return(int b);			/* AFTER it returned */
+void orc_cb_forked_child(void);		/* in a forked child: calls in flight at fork() may be lost there */
 void orc_cb_final_check(const char *what);	/* every callback ran exactly once */
 int orc_ncb(void);
 int orc_cb_count(int cb);
